@@ -1250,7 +1250,7 @@ def C07.M44.inverse0 {α : Type} [Add α] [Sub α] [Mul α] [Div α] [Neg α] [L
     ⟨(t134).x00, (t134).x01, (t134).x02, (t134).x03, (t134).x10, (t134).x11, (t134).x12, (t134).x13, (t134).x20, (t134).x21, (t134).x22, (t134).x23, (t134).x30, (t134).x31, (t134).x32, (t134).x33⟩
 
 /-- extracted from the C++ template at T = Sym; 15 path(s) -/
-def C07.M44.inverseF {α : Type} [Add α] [Sub α] [Mul α] [Div α] [Neg α] [LT α] [LE α] [DecidableLT α] [DecidableLE α] [DecidableEq α] [OfNat α 0] [OfNat α 1] (tmin : α) (gj44 : M44 α → M44 α) (a : M44 α) : (M44 α) :=
+def C07.M44.inverseF {α : Type} [Add α] [Sub α] [Mul α] [Div α] [Neg α] [LT α] [LE α] [DecidableLT α] [DecidableLE α] [DecidableEq α] [OfNat α 0] [OfNat α 1] (tmin : α) (gj44F : M44 α → M44 α) (a : M44 α) : (M44 α) :=
   let t39 := ((a.x00 * a.x11) - (a.x10 * a.x01))
   let t40 := (sabs t39)
   let t65 := ((a.x20 * a.x01) - (a.x00 * a.x21))
@@ -1285,7 +1285,7 @@ def C07.M44.inverseF {α : Type} [Add α] [Sub α] [Mul α] [Div α] [Neg α] [L
   let t123 := (((t120 * t93) - (a.x31 * t96)) - (a.x32 * t99))
   let t128 := (((t120 * t94) - (a.x31 * t97)) - (a.x32 * t100))
   let t133 := (((t120 * t95) - (a.x31 * t98)) - (a.x32 * t101))
-  let t134 := (gj44 ⟨a.x00, a.x01, a.x02, a.x03, a.x10, a.x11, a.x12, a.x13, a.x20, a.x21, a.x22, a.x23, a.x30, a.x31, a.x32, a.x33⟩)
+  let t151 := (gj44F ⟨a.x00, a.x01, a.x02, a.x03, a.x10, a.x11, a.x12, a.x13, a.x20, a.x21, a.x22, a.x23, a.x30, a.x31, a.x32, a.x33⟩)
   if a.x03 = (0 : α) then
     if a.x13 = (0 : α) then
       if a.x23 = (0 : α) then
@@ -1322,16 +1322,16 @@ def C07.M44.inverseF {α : Type} [Add α] [Sub α] [Mul α] [Div α] [Neg α] [L
             else
               ⟨(1 : α), (0 : α), (0 : α), (0 : α), (0 : α), (1 : α), (0 : α), (0 : α), (0 : α), (0 : α), (1 : α), (0 : α), (0 : α), (0 : α), (0 : α), (1 : α)⟩
         else
-          ⟨(t134).x00, (t134).x01, (t134).x02, (t134).x03, (t134).x10, (t134).x11, (t134).x12, (t134).x13, (t134).x20, (t134).x21, (t134).x22, (t134).x23, (t134).x30, (t134).x31, (t134).x32, (t134).x33⟩
+          ⟨(t151).x00, (t151).x01, (t151).x02, (t151).x03, (t151).x10, (t151).x11, (t151).x12, (t151).x13, (t151).x20, (t151).x21, (t151).x22, (t151).x23, (t151).x30, (t151).x31, (t151).x32, (t151).x33⟩
       else
-        ⟨(t134).x00, (t134).x01, (t134).x02, (t134).x03, (t134).x10, (t134).x11, (t134).x12, (t134).x13, (t134).x20, (t134).x21, (t134).x22, (t134).x23, (t134).x30, (t134).x31, (t134).x32, (t134).x33⟩
+        ⟨(t151).x00, (t151).x01, (t151).x02, (t151).x03, (t151).x10, (t151).x11, (t151).x12, (t151).x13, (t151).x20, (t151).x21, (t151).x22, (t151).x23, (t151).x30, (t151).x31, (t151).x32, (t151).x33⟩
     else
-      ⟨(t134).x00, (t134).x01, (t134).x02, (t134).x03, (t134).x10, (t134).x11, (t134).x12, (t134).x13, (t134).x20, (t134).x21, (t134).x22, (t134).x23, (t134).x30, (t134).x31, (t134).x32, (t134).x33⟩
+      ⟨(t151).x00, (t151).x01, (t151).x02, (t151).x03, (t151).x10, (t151).x11, (t151).x12, (t151).x13, (t151).x20, (t151).x21, (t151).x22, (t151).x23, (t151).x30, (t151).x31, (t151).x32, (t151).x33⟩
   else
-    ⟨(t134).x00, (t134).x01, (t134).x02, (t134).x03, (t134).x10, (t134).x11, (t134).x12, (t134).x13, (t134).x20, (t134).x21, (t134).x22, (t134).x23, (t134).x30, (t134).x31, (t134).x32, (t134).x33⟩
+    ⟨(t151).x00, (t151).x01, (t151).x02, (t151).x03, (t151).x10, (t151).x11, (t151).x12, (t151).x13, (t151).x20, (t151).x21, (t151).x22, (t151).x23, (t151).x30, (t151).x31, (t151).x32, (t151).x33⟩
 
-/-- extracted from the C++ template at T = Sym; 15 path(s) -/
-def C07.M44.inverseT {α : Type} [Add α] [Sub α] [Mul α] [Div α] [Neg α] [LT α] [LE α] [DecidableLT α] [DecidableLE α] [DecidableEq α] [OfNat α 0] [OfNat α 1] (tmin : α) (gj44 : M44 α → M44 α) (a : M44 α) : Except Exc (M44 α) :=
+/-- extracted from the C++ template at T = Sym; 19 path(s) -/
+def C07.M44.inverseT {α : Type} [Add α] [Sub α] [Mul α] [Div α] [Neg α] [LT α] [LE α] [DecidableLT α] [DecidableLE α] [DecidableEq α] [OfNat α 0] [OfNat α 1] (tmin : α) (gj44Tstatus : M44 α → α) (gj44Tvalue : M44 α → M44 α) (a : M44 α) : Except Exc (M44 α) :=
   let t39 := ((a.x00 * a.x11) - (a.x10 * a.x01))
   let t40 := (sabs t39)
   let t65 := ((a.x20 * a.x01) - (a.x00 * a.x21))
@@ -1366,7 +1366,8 @@ def C07.M44.inverseT {α : Type} [Add α] [Sub α] [Mul α] [Div α] [Neg α] [L
   let t123 := (((t120 * t93) - (a.x31 * t96)) - (a.x32 * t99))
   let t128 := (((t120 * t94) - (a.x31 * t97)) - (a.x32 * t100))
   let t133 := (((t120 * t95) - (a.x31 * t98)) - (a.x32 * t101))
-  let t134 := (gj44 ⟨a.x00, a.x01, a.x02, a.x03, a.x10, a.x11, a.x12, a.x13, a.x20, a.x21, a.x22, a.x23, a.x30, a.x31, a.x32, a.x33⟩)
+  let t168 := (gj44Tstatus ⟨a.x00, a.x01, a.x02, a.x03, a.x10, a.x11, a.x12, a.x13, a.x20, a.x21, a.x22, a.x23, a.x30, a.x31, a.x32, a.x33⟩)
+  let t169 := (gj44Tvalue ⟨a.x00, a.x01, a.x02, a.x03, a.x10, a.x11, a.x12, a.x13, a.x20, a.x21, a.x22, a.x23, a.x30, a.x31, a.x32, a.x33⟩)
   if a.x03 = (0 : α) then
     if a.x13 = (0 : α) then
       if a.x23 = (0 : α) then
@@ -1403,13 +1404,25 @@ def C07.M44.inverseT {α : Type} [Add α] [Sub α] [Mul α] [Div α] [Neg α] [L
             else
               .error Exc.invalidArgument
         else
-          .ok (⟨(t134).x00, (t134).x01, (t134).x02, (t134).x03, (t134).x10, (t134).x11, (t134).x12, (t134).x13, (t134).x20, (t134).x21, (t134).x22, (t134).x23, (t134).x30, (t134).x31, (t134).x32, (t134).x33⟩)
+          if t168 = (0 : α) then
+            .ok (⟨(t169).x00, (t169).x01, (t169).x02, (t169).x03, (t169).x10, (t169).x11, (t169).x12, (t169).x13, (t169).x20, (t169).x21, (t169).x22, (t169).x23, (t169).x30, (t169).x31, (t169).x32, (t169).x33⟩)
+          else
+            .error Exc.invalidArgument
       else
-        .ok (⟨(t134).x00, (t134).x01, (t134).x02, (t134).x03, (t134).x10, (t134).x11, (t134).x12, (t134).x13, (t134).x20, (t134).x21, (t134).x22, (t134).x23, (t134).x30, (t134).x31, (t134).x32, (t134).x33⟩)
+        if t168 = (0 : α) then
+          .ok (⟨(t169).x00, (t169).x01, (t169).x02, (t169).x03, (t169).x10, (t169).x11, (t169).x12, (t169).x13, (t169).x20, (t169).x21, (t169).x22, (t169).x23, (t169).x30, (t169).x31, (t169).x32, (t169).x33⟩)
+        else
+          .error Exc.invalidArgument
     else
-      .ok (⟨(t134).x00, (t134).x01, (t134).x02, (t134).x03, (t134).x10, (t134).x11, (t134).x12, (t134).x13, (t134).x20, (t134).x21, (t134).x22, (t134).x23, (t134).x30, (t134).x31, (t134).x32, (t134).x33⟩)
+      if t168 = (0 : α) then
+        .ok (⟨(t169).x00, (t169).x01, (t169).x02, (t169).x03, (t169).x10, (t169).x11, (t169).x12, (t169).x13, (t169).x20, (t169).x21, (t169).x22, (t169).x23, (t169).x30, (t169).x31, (t169).x32, (t169).x33⟩)
+      else
+        .error Exc.invalidArgument
   else
-    .ok (⟨(t134).x00, (t134).x01, (t134).x02, (t134).x03, (t134).x10, (t134).x11, (t134).x12, (t134).x13, (t134).x20, (t134).x21, (t134).x22, (t134).x23, (t134).x30, (t134).x31, (t134).x32, (t134).x33⟩)
+    if t168 = (0 : α) then
+      .ok (⟨(t169).x00, (t169).x01, (t169).x02, (t169).x03, (t169).x10, (t169).x11, (t169).x12, (t169).x13, (t169).x20, (t169).x21, (t169).x22, (t169).x23, (t169).x30, (t169).x31, (t169).x32, (t169).x33⟩)
+    else
+      .error Exc.invalidArgument
 
 /-- extracted from the C++ template at T = Sym; 15 path(s) -/
 def C07.M44.invert0 {α : Type} [Add α] [Sub α] [Mul α] [Div α] [Neg α] [LT α] [LE α] [DecidableLT α] [DecidableLE α] [DecidableEq α] [OfNat α 0] [OfNat α 1] (tmin : α) (gj44 : M44 α → M44 α) (a : M44 α) : (M44 α) :=
@@ -1493,7 +1506,7 @@ def C07.M44.invert0 {α : Type} [Add α] [Sub α] [Mul α] [Div α] [Neg α] [LT
     ⟨(t134).x00, (t134).x01, (t134).x02, (t134).x03, (t134).x10, (t134).x11, (t134).x12, (t134).x13, (t134).x20, (t134).x21, (t134).x22, (t134).x23, (t134).x30, (t134).x31, (t134).x32, (t134).x33⟩
 
 /-- extracted from the C++ template at T = Sym; 15 path(s) -/
-def C07.M44.invertF {α : Type} [Add α] [Sub α] [Mul α] [Div α] [Neg α] [LT α] [LE α] [DecidableLT α] [DecidableLE α] [DecidableEq α] [OfNat α 0] [OfNat α 1] (tmin : α) (gj44 : M44 α → M44 α) (a : M44 α) : (M44 α) :=
+def C07.M44.invertF {α : Type} [Add α] [Sub α] [Mul α] [Div α] [Neg α] [LT α] [LE α] [DecidableLT α] [DecidableLE α] [DecidableEq α] [OfNat α 0] [OfNat α 1] (tmin : α) (gj44F : M44 α → M44 α) (a : M44 α) : (M44 α) :=
   let t39 := ((a.x00 * a.x11) - (a.x10 * a.x01))
   let t40 := (sabs t39)
   let t65 := ((a.x20 * a.x01) - (a.x00 * a.x21))
@@ -1528,7 +1541,7 @@ def C07.M44.invertF {α : Type} [Add α] [Sub α] [Mul α] [Div α] [Neg α] [LT
   let t123 := (((t120 * t93) - (a.x31 * t96)) - (a.x32 * t99))
   let t128 := (((t120 * t94) - (a.x31 * t97)) - (a.x32 * t100))
   let t133 := (((t120 * t95) - (a.x31 * t98)) - (a.x32 * t101))
-  let t134 := (gj44 ⟨a.x00, a.x01, a.x02, a.x03, a.x10, a.x11, a.x12, a.x13, a.x20, a.x21, a.x22, a.x23, a.x30, a.x31, a.x32, a.x33⟩)
+  let t151 := (gj44F ⟨a.x00, a.x01, a.x02, a.x03, a.x10, a.x11, a.x12, a.x13, a.x20, a.x21, a.x22, a.x23, a.x30, a.x31, a.x32, a.x33⟩)
   if a.x03 = (0 : α) then
     if a.x13 = (0 : α) then
       if a.x23 = (0 : α) then
@@ -1565,16 +1578,16 @@ def C07.M44.invertF {α : Type} [Add α] [Sub α] [Mul α] [Div α] [Neg α] [LT
             else
               ⟨(1 : α), (0 : α), (0 : α), (0 : α), (0 : α), (1 : α), (0 : α), (0 : α), (0 : α), (0 : α), (1 : α), (0 : α), (0 : α), (0 : α), (0 : α), (1 : α)⟩
         else
-          ⟨(t134).x00, (t134).x01, (t134).x02, (t134).x03, (t134).x10, (t134).x11, (t134).x12, (t134).x13, (t134).x20, (t134).x21, (t134).x22, (t134).x23, (t134).x30, (t134).x31, (t134).x32, (t134).x33⟩
+          ⟨(t151).x00, (t151).x01, (t151).x02, (t151).x03, (t151).x10, (t151).x11, (t151).x12, (t151).x13, (t151).x20, (t151).x21, (t151).x22, (t151).x23, (t151).x30, (t151).x31, (t151).x32, (t151).x33⟩
       else
-        ⟨(t134).x00, (t134).x01, (t134).x02, (t134).x03, (t134).x10, (t134).x11, (t134).x12, (t134).x13, (t134).x20, (t134).x21, (t134).x22, (t134).x23, (t134).x30, (t134).x31, (t134).x32, (t134).x33⟩
+        ⟨(t151).x00, (t151).x01, (t151).x02, (t151).x03, (t151).x10, (t151).x11, (t151).x12, (t151).x13, (t151).x20, (t151).x21, (t151).x22, (t151).x23, (t151).x30, (t151).x31, (t151).x32, (t151).x33⟩
     else
-      ⟨(t134).x00, (t134).x01, (t134).x02, (t134).x03, (t134).x10, (t134).x11, (t134).x12, (t134).x13, (t134).x20, (t134).x21, (t134).x22, (t134).x23, (t134).x30, (t134).x31, (t134).x32, (t134).x33⟩
+      ⟨(t151).x00, (t151).x01, (t151).x02, (t151).x03, (t151).x10, (t151).x11, (t151).x12, (t151).x13, (t151).x20, (t151).x21, (t151).x22, (t151).x23, (t151).x30, (t151).x31, (t151).x32, (t151).x33⟩
   else
-    ⟨(t134).x00, (t134).x01, (t134).x02, (t134).x03, (t134).x10, (t134).x11, (t134).x12, (t134).x13, (t134).x20, (t134).x21, (t134).x22, (t134).x23, (t134).x30, (t134).x31, (t134).x32, (t134).x33⟩
+    ⟨(t151).x00, (t151).x01, (t151).x02, (t151).x03, (t151).x10, (t151).x11, (t151).x12, (t151).x13, (t151).x20, (t151).x21, (t151).x22, (t151).x23, (t151).x30, (t151).x31, (t151).x32, (t151).x33⟩
 
-/-- extracted from the C++ template at T = Sym; 15 path(s) -/
-def C07.M44.invertT {α : Type} [Add α] [Sub α] [Mul α] [Div α] [Neg α] [LT α] [LE α] [DecidableLT α] [DecidableLE α] [DecidableEq α] [OfNat α 0] [OfNat α 1] (tmin : α) (gj44 : M44 α → M44 α) (a : M44 α) : Except Exc (M44 α) :=
+/-- extracted from the C++ template at T = Sym; 19 path(s) -/
+def C07.M44.invertT {α : Type} [Add α] [Sub α] [Mul α] [Div α] [Neg α] [LT α] [LE α] [DecidableLT α] [DecidableLE α] [DecidableEq α] [OfNat α 0] [OfNat α 1] (tmin : α) (gj44Tstatus : M44 α → α) (gj44Tvalue : M44 α → M44 α) (a : M44 α) : Except Exc (M44 α) :=
   let t39 := ((a.x00 * a.x11) - (a.x10 * a.x01))
   let t40 := (sabs t39)
   let t65 := ((a.x20 * a.x01) - (a.x00 * a.x21))
@@ -1609,7 +1622,8 @@ def C07.M44.invertT {α : Type} [Add α] [Sub α] [Mul α] [Div α] [Neg α] [LT
   let t123 := (((t120 * t93) - (a.x31 * t96)) - (a.x32 * t99))
   let t128 := (((t120 * t94) - (a.x31 * t97)) - (a.x32 * t100))
   let t133 := (((t120 * t95) - (a.x31 * t98)) - (a.x32 * t101))
-  let t134 := (gj44 ⟨a.x00, a.x01, a.x02, a.x03, a.x10, a.x11, a.x12, a.x13, a.x20, a.x21, a.x22, a.x23, a.x30, a.x31, a.x32, a.x33⟩)
+  let t168 := (gj44Tstatus ⟨a.x00, a.x01, a.x02, a.x03, a.x10, a.x11, a.x12, a.x13, a.x20, a.x21, a.x22, a.x23, a.x30, a.x31, a.x32, a.x33⟩)
+  let t169 := (gj44Tvalue ⟨a.x00, a.x01, a.x02, a.x03, a.x10, a.x11, a.x12, a.x13, a.x20, a.x21, a.x22, a.x23, a.x30, a.x31, a.x32, a.x33⟩)
   if a.x03 = (0 : α) then
     if a.x13 = (0 : α) then
       if a.x23 = (0 : α) then
@@ -1646,12 +1660,24 @@ def C07.M44.invertT {α : Type} [Add α] [Sub α] [Mul α] [Div α] [Neg α] [LT
             else
               .error Exc.invalidArgument
         else
-          .ok (⟨(t134).x00, (t134).x01, (t134).x02, (t134).x03, (t134).x10, (t134).x11, (t134).x12, (t134).x13, (t134).x20, (t134).x21, (t134).x22, (t134).x23, (t134).x30, (t134).x31, (t134).x32, (t134).x33⟩)
+          if t168 = (0 : α) then
+            .ok (⟨(t169).x00, (t169).x01, (t169).x02, (t169).x03, (t169).x10, (t169).x11, (t169).x12, (t169).x13, (t169).x20, (t169).x21, (t169).x22, (t169).x23, (t169).x30, (t169).x31, (t169).x32, (t169).x33⟩)
+          else
+            .error Exc.invalidArgument
       else
-        .ok (⟨(t134).x00, (t134).x01, (t134).x02, (t134).x03, (t134).x10, (t134).x11, (t134).x12, (t134).x13, (t134).x20, (t134).x21, (t134).x22, (t134).x23, (t134).x30, (t134).x31, (t134).x32, (t134).x33⟩)
+        if t168 = (0 : α) then
+          .ok (⟨(t169).x00, (t169).x01, (t169).x02, (t169).x03, (t169).x10, (t169).x11, (t169).x12, (t169).x13, (t169).x20, (t169).x21, (t169).x22, (t169).x23, (t169).x30, (t169).x31, (t169).x32, (t169).x33⟩)
+        else
+          .error Exc.invalidArgument
     else
-      .ok (⟨(t134).x00, (t134).x01, (t134).x02, (t134).x03, (t134).x10, (t134).x11, (t134).x12, (t134).x13, (t134).x20, (t134).x21, (t134).x22, (t134).x23, (t134).x30, (t134).x31, (t134).x32, (t134).x33⟩)
+      if t168 = (0 : α) then
+        .ok (⟨(t169).x00, (t169).x01, (t169).x02, (t169).x03, (t169).x10, (t169).x11, (t169).x12, (t169).x13, (t169).x20, (t169).x21, (t169).x22, (t169).x23, (t169).x30, (t169).x31, (t169).x32, (t169).x33⟩)
+      else
+        .error Exc.invalidArgument
   else
-    .ok (⟨(t134).x00, (t134).x01, (t134).x02, (t134).x03, (t134).x10, (t134).x11, (t134).x12, (t134).x13, (t134).x20, (t134).x21, (t134).x22, (t134).x23, (t134).x30, (t134).x31, (t134).x32, (t134).x33⟩)
+    if t168 = (0 : α) then
+      .ok (⟨(t169).x00, (t169).x01, (t169).x02, (t169).x03, (t169).x10, (t169).x11, (t169).x12, (t169).x13, (t169).x20, (t169).x21, (t169).x22, (t169).x23, (t169).x30, (t169).x31, (t169).x32, (t169).x33⟩)
+    else
+      .error Exc.invalidArgument
 
 end ImathVerif.Gen
